@@ -33,6 +33,11 @@ pub fn roundtrip(case: &Case) -> Verdict {
     let v = &case.value;
     let mut pk = VecPicker::new(&case.repr);
     let Some(t) = lift(v, &mut pk) else {
+        // building the term's map lost an entry: expected only for keys the library's order takes for equal (C03-F1);
+        // any other pair of keys must stay two entries
+        if !refmodel::order::has_numerically_equal_keys(v) {
+            vfail!("constructed-map-lost-an-entry", "a map in {} cannot be built as a term: two different keys are taken for one", v.render());
+        }
         return Verdict::Pass(CaseInfo::trivial().class("unrepresentable:map-keys-collapse"));
     };
     let alt_repr = pk.noncanonical > 0;
